@@ -33,6 +33,7 @@ type rioCase struct {
 	Seeks    []int   `json:"seeks"`
 	Damage   string  `json:"damage"` // "", "trunc", "header", "fileheader"
 	DmgStep  int     `json:"dmgstep"`
+	WFile    string  `json:"wfile"`  // "" (Path option) | "append" | "rdwr" | "wronly": the writer gets an *os.File the caller opened with these flags (File option)
 	Legacy   int     `json:"legacy"` // 1..3: the file is laid out in that older format version by the harness (the library only reads these)
 }
 
@@ -98,6 +99,14 @@ func runRIO(args []string) error {
 		realWriter := func() ([]uint64, bool, error) {
 			var offs []uint64
 			wopts := []recordio.FileWriterOption{recordio.Path(path), recordio.CompressionType(c.Comp)}
+			if c.WFile != "" {
+				flags := map[string]int{"append": os.O_WRONLY | os.O_CREATE | os.O_APPEND, "rdwr": os.O_RDWR | os.O_CREATE, "wronly": os.O_WRONLY | os.O_CREATE | os.O_TRUNC}[c.WFile]
+				f, ferr := os.OpenFile(path, flags, 0o600)
+				if ferr != nil {
+					return nil, false, ferr
+				}
+				wopts = []recordio.FileWriterOption{recordio.File(f), recordio.CompressionType(c.Comp)}
+			}
 			if c.WBuf > 0 {
 				wopts = append(wopts, recordio.BufferSizeBytes(c.WBuf))
 			}
